@@ -42,10 +42,12 @@ Methods == {[params |-> ps, ret |-> r] : ps \in {<<>>} \cup {<<a>> : a \in PType
 ---------------------------------------------------------------------------
 (* member family *)
 Opt2(n) == {"", n}
-Decl == {"absent", "named", "unnamed"}      \* unnamed: the entry has no name in the target namespace
+Decl == {"absent", "named", "unnamed", "same"}      \* unnamed: the entry has no name in the target namespace; same: it keeps its name
 MDesc(kind) == IF kind = "m" THEN "(LTop;)LMid;" ELSE "LTop;"
 Member(kind, decl, f, t, tag) ==
-    LET nm == [i \in 1..3 |-> IF decl = "unnamed" /\ i = t THEN "" ELSE IF i = t THEN tag \o ToString(i) ELSE "mem" \o ToString(i)]
+    LET own(i) == IF i = 1 THEN "mem" ELSE "mem" \o ToString(i)
+        nm == [i \in 1..3 |-> IF decl = "unnamed" /\ i = t THEN "" ELSE IF decl = "same" /\ i = t THEN own(f)
+                               ELSE IF i = t THEN tag \o ToString(i) ELSE "mem" \o ToString(i)]
     IN IF kind = "m" THEN Method(<<"mem", nm[2], nm[3]>>, MDesc(kind), <<>>, <<>>)
        ELSE Field(<<"mem", nm[2], nm[3]>>, MDesc(kind), <<>>)
 (* the member's name is "mem" / "mem2" / "mem3" in every class (overriding members share their *)
